@@ -1,14 +1,14 @@
 CONSTANTS
   Fam = "mac"
-  NM = 1
-  KindSet = {"obj", "f0", "f1", "f2", "fv", "f1v"}
-  MaxBody = 3
-  MaxInv = 6
-  BodyAlpha = {"x", "y", "V", "#x", "#y", "#V", "#", "##", "f", "a", "1"}
-  InvAlpha = {"f", "a", "(", ")", ","}
+  NM = 2
+  KindSet = {"obj", "f1"}
+  MaxBody = 2
+  MaxInv = 3
+  BodyAlpha = {"x", "f", "g", "(", ")"}
+  InvAlpha = {"f", "g", "a", "(", ")"}
   VarWs = FALSE
   InvHead = TRUE
-  InvBal = TRUE
+  InvBal = FALSE
   NameScheme = 1
   MaxLines = 1
   MaxNest = 1
